@@ -8,20 +8,27 @@ from .common import cfloat, cnat, cstr, clist, cpair
 
 MANIFEST = {
     "text": "Coq 8.16 theorems over a model of the three persistence codecs (dict/JSON with loaded_ids re-linking and fresh ids, "
-            "pickle, database rows with ids read through the message) as ONE stateful traversal of a tree refining the C01 ModelTree "
-            "with prior specifications, message ids, assertions, plain instances and dict constants: a successful round trip is a "
-            "renaming of parameter identities (refinement proof for the memoising dict decoder), and a renaming that is injective "
-            "keeps the path list, the partition of paths by parameter (never merges, never splits), every prior specification, every "
-            "constant, every assertion, and the instance built from any path arguments; a monotone one also keeps the parameter order; "
-            "closed under arbitrary mixed sequences of round trips. The defects of the pinned code stay visible as _refuted witnesses "
-            "next to _partial theorems. Tied to the code by vm_compute correspondence of every single trip (model started from the "
-            "previously observed live object graph) on generated composition programs x mixed sequences of 1-3 trips, two-sided "
-            "abstraction, plus a direct oracle of the property text (and a position-based variant that is blind to no finding class).",
+            "pickle, database rows) as ONE stateful traversal of a tree that refines the C01 ModelTree with prior specifications, "
+            "message ids, assertions, plain instances and dict constants, parametric in which of the proposed repairs the code "
+            "contains: (i) refinement: the memoising dict decoder and the database codec compute the declarative image of ANY "
+            "storable model (C08_dict_image, C08_db_image); (ii) a successful round trip of a plain model is an injective renaming "
+            "of parameter identities and changes nothing else (shape, names, constants, prior family/limits/parameters in place, "
+            "assertions), pickle and database keep the identities themselves; (iii) such a renaming keeps the path list, the "
+            "partition of paths by parameter (never merges, never splits), the count, the instance built from any path arguments, "
+            "and, when monotone, the order; (iv) closed under arbitrary mixed sequences of trips; (v) models with arithmetic priors "
+            "(whose operand names are not stored) keep order, count and every instance through database and dict; the defects of "
+            "the pinned code stay visible as _refuted witnesses next to the _partial theorems. Tied to the code by vm_compute "
+            "correspondence of every single trip (model started from the previously observed live object graph, code configuration "
+            "probed) on generated composition programs x mixed sequences of 1-3 trips, two-sided abstraction, plus a direct oracle "
+            "of the property text and a position-based variant.",
     "note": "Trusted: Coq kernel + vm_compute; the harness's raw __dict__ abstraction of live models (ids compared up to a strictly "
-            "monotone renumbering); SQLite/SQLAlchemy/json/pickle themselves (covered by correspondence only). Not modelled in Coq "
-            "(oracle only): af.Array models and unary ModifiedPrior (-p); width_modifier / labels / Model ids are not part of the "
-            "property. Known findings of the pinned tree are class-matched (see known_findings/C08.json).",
-    "technique": "machine-checked proof in Coq (hand-written codec model over the C01 tree, refinement + invariants) + vm_compute correspondence",
+            "monotone renumbering, for dict up to any injective one); SQLite/SQLAlchemy/json/pickle themselves (covered by "
+            "correspondence only). Partial: the equivalence theorems for the dict form exclude components without free parameters "
+            "(written as 'instance': finding) and, for path-keyed statements, arithmetic priors (names not stored: finding). Not "
+            "modelled in Coq (oracle only): af.Array models and unary ModifiedPrior (-p); width_modifier / labels / Model ids are "
+            "not part of the property. Known findings of the tree are class-matched (known_findings/C08.json).",
+    "technique": "machine-checked proof in Coq (hand-written codec model over the C01 tree; refinement of the stateful decoder, invariants, "
+                 "induction over nested trees) + vm_compute correspondence",
 }
 
 unhex = MG.unhex
